@@ -228,9 +228,17 @@ def c05(r):
         g = r.growth[t]
         gs = gs_of(r, t)
         if not np.all(np.isfinite(g)):
-            out.append(V("C05", "non-finite", r, t, "non-finite crop output", row=[float(x) for x in g]))
-            prev = None
-            continue
+            bad = [i for i in range(len(g)) if not np.isfinite(g[i])]
+            sidx = int(g[G_SEASON]) if np.isfinite(g[G_SEASON]) else -1
+            yld_unset = 0 <= sidx < len(ctx["crops"]) and not ctx["crops"][sidx].get("YldWC")
+            if bad == [G_FRESH] and yld_unset:
+                out.append(V("C05", "freshyield-yldwc-unset", r, t, "fresh yield non-finite: the crop defines no YldWC",
+                             crop=ctx["crops"][sidx].get("Name")))
+                g = g.copy(); g[G_FRESH] = 0.0
+            else:
+                out.append(V("C05", "non-finite", r, t, "non-finite crop output", row=[float(x) for x in g], cols=bad))
+                prev = None
+                continue
         if not gs:
             if g[G_CC] != 0 or g[G_B] != 0 or g[G_DRY] != 0 or g[G_FRESH] != 0 or g[G_DAP] != 0:
                 out.append(V("C05", "offseason-nonzero", r, t, "crop outputs non-zero outside season",
